@@ -36,6 +36,11 @@ def plan(tier, seed):
     cases += rowlib.gen_cases(G.h2_on_reactant_side(rng, 48 if q else 500), 8, CFGS, "h2")
     cases += rowlib.gen_cases(G.dot_ring_closures(rng, 24 if q else 200), 8, CFGS, "dotring")
     cases += rowlib.gen_cases(G.spectator_laden(rng, 24 if q else 200), 8, CFGS, "spect")
+    cases += rowlib.gen_cases(G.dative(rng, 40 if q else 400), 8, CFGS, "dative")
+    # large batches: many completed rows, rows rewritten by reagent templates at positions >= 10 (>= 100)
+    big = G.redox_family(rng, 60 if q else 600) + G.deletions(rng, 40 if q else 400) + G.additions(rng, 20 if q else 200)
+    rng.shuffle(big)
+    cases += rowlib.gen_cases(big, 30 if q else 120, [CFGS[0], CFGS[2]], "big")
     if not q:
         from vgen import corpus
         cases += rowlib.gen_cases(corpus.raw_reactions(), 24, CFGS, "raw")
